@@ -275,6 +275,15 @@ def explore(S, docs=None, want=('C01', 'C04', 'C05')):
                             okx = any(txt_ in e_ or (e_ in txt_ and e_.count('\n') >= txt_.strip('\n').count('\n')) for e_ in exempt if '\n' in e_)
                             ctx.must_hold(okx, 'C12:indentation-copied-from-the-source-outside-the-exempt-regions', lambda mdl, txt_=txt_: dict(describe(mdl), text=txt_))
                     break
+                # a line starts with the indentation its nest() levels give it and nothing else: a blank pushed as text right behind a line break would
+                # add to it (comments, strings and raw text print their own continuation lines inside one atom and are not affected)
+                for mode_, at_ in atoms_modes(d).items():
+                    stray = None
+                    for j_ in range(len(at_) - 2):
+                        if at_[j_] == ('nl',) and at_[j_ + 1][0] == 't' and at_[j_ + 1][1].is_concrete() and at_[j_ + 1][1].concrete() != '' and at_[j_ + 1][1].concrete().strip(' ') == '' and at_[j_ + 2] != ('nl',):
+                            nxt_ = at_[j_ + 2]
+                            stray = nxt_[1].concrete()[:20] if nxt_[0] == 't' and nxt_[1].is_concrete() else '?'
+                    ctx.must_hold(stray is None, 'C12:blank-pushed-at-the-start-of-a-line', lambda mdl, stray=stray, mode_=mode_: dict(describe(mdl), layout=mode_, before=stray))
                 offs = D.indent_nest_offsets(d)
                 ctx.must_hold(b_and(*[i_eq(o, cfg.fields[0], 64) for o in offs]), 'C12:nest-offset-differs-from-indent-unit',
                               lambda mdl: dict(describe(mdl), offsets=[(model_int(mdl, o) if is_sym(o) else o) for o in offs]))
